@@ -452,6 +452,34 @@ fn offset_boundaries(ctx: &mut Ctx) {
             }
         }
     }
+    // instants around daylight-saving transitions of the zones in the quantifier (the explicit current time is an instant:
+    // the process zone must not shift it), elements expiring half an hour before / after
+    for now in [epoch(2024, 11, 3, 8, 30, 0), epoch(2024, 11, 3, 9, 30, 0), epoch(2024, 11, 3, 8, 59, 59), epoch(2024, 3, 10, 9, 30, 0), epoch(2024, 3, 10, 10, 30, 0), epoch(2024, 10, 27, 0, 30, 0)] {
+        for zone in [0i64, -7 * 3600, -8 * 3600, 9 * 3600] {
+            for d in [-1800i64, 1800, 3000, -3000] {
+                let to = wall(now + d, 0);
+                let src = format!("a<!-- <time-limited to=\"{to}\"> -->X<!-- </time-limited> -->b\n");
+                let cfg = Cfg { ds: DEF_DS.into(), de: DEF_DE.into(), tl_tag: DEF_TL.into(), rm_tag: DEF_RM.into(), now, offset: DEF_OFFSET.into(), targets: vec![] };
+                let Ok(expected) = call_clean(&src, &cfg) else { continue };
+                for tz in [Some("UTC"), Some("Asia/Tokyo"), Some("America/Los_Angeles"), None] {
+                    let args = vec![format!("--time-limited-current={}", rfc3339(now, zone))];
+                    let out = match run_cli(&args, Some(src.as_bytes()), &[("TZ", tz)], None) {
+                        Ok(o) => o,
+                        Err(e) => {
+                            ctx.inconclusive = Some(e);
+                            return;
+                        }
+                    };
+                    n += 1;
+                    let got = String::from_utf8_lossy(&out.stdout).to_string();
+                    if out.status != 0 || got != expected {
+                        ctx.failure = Some(Failure { broken: false, sub: "offset-boundaries".into(), case: json!({"args": args, "stdin": src, "expect_stdout": expected, "TZ": tz}), tape: None, message: format!("chiritori {:?} with TZ={:?} on {:?}: exit {} output {:?}; the library gives {:?} (instant around a daylight-saving transition, to = now{:+}s)", args, tz, src, out.status, got, expected, d) });
+                        return;
+                    }
+                }
+            }
+        }
+    }
     ctx.stats.evaluations += n;
     ctx.stats.counted += n;
     ctx.subs_run.push(json!({"sub": "offset-boundaries", "process_runs": n, "rule": "105 quarter-hour offsets x 2 spellings x to = now-1s / now / now+1s: the binary's output equals the library's"}));
@@ -525,7 +553,9 @@ pub fn replay(sub: &str, case: &Value, obs: &mut Obs) -> Result<Verdict, String>
         let args: Vec<String> = serde_json::from_value(case["args"].clone()).map_err(|e| e.to_string())?;
         let stdin = case["stdin"].as_str().unwrap_or("").to_string();
         let expect = case["expect_stdout"].as_str().unwrap_or("").to_string();
-        let out = run_cli(&args, Some(stdin.as_bytes()), &[], None)?;
+        let tz = case["TZ"].as_str();
+        let envs: Vec<(&str, Option<&str>)> = if case.get("TZ").is_some() { vec![("TZ", tz)] } else { vec![] };
+        let out = run_cli(&args, Some(stdin.as_bytes()), &envs, None)?;
         let got = String::from_utf8_lossy(&out.stdout).to_string();
         obs.eval();
         return Ok(if out.status != 0 || got != expect { Verdict::Fail(format!("chiritori {args:?} on {stdin:?}: exit {} output {got:?}, the library gives {expect:?}", out.status)) } else { Verdict::Pass });
